@@ -295,7 +295,8 @@ def parseTypeF (b : Back) : Nat → P TS
     | .group .bracket c :: r => do setToks r; return [.group .bracket (respaceTS c)]
     | .punct ':' _ :: _ => do let pth ← parsePathF b f; return pth.toTS
     | .ident s :: _ =>
-      if ["dyn", "impl", "fn", "unsafe", "extern", "for", "_"].contains s then failUnsup ("type starting with " ++ s)
+      if s == "_" then do setToks ((← toks).drop 1); return [.ident "_"]
+      else if ["dyn", "impl", "fn", "unsafe", "extern", "for"].contains s then failUnsup ("type starting with " ++ s)
       else do
         let pth ← parsePathF b f
         if (← peekPuncts "!") then failUnsup "macro in type position"
